@@ -63,6 +63,8 @@ F_UNIT = "join_impl/src/parse/unit.rs"
 F_CHAIN = "join_impl/src/action_expr_chain/mod.rs"
 
 PARSE_STREAM_ENSURES = [
+    # the next group comes from the unit parser (parse_until): whatever that one promises about it
+    "r is Ok ==> unit_parser.next_wf(r->Ok_0.next)",
     "r is Ok ==> r->Ok_0.parsed.action == *self",
     "r is Ok ==> r->Ok_0.parsed.expr.ctor_of() == parse_table(self.combinator).1",
     "r is Ok && self.combinator == Combinator::Initial ==> r->Ok_0.parsed.expr.operands().len() == 1",
@@ -105,6 +107,7 @@ def common_units():
     u.append(raw("specs_bridge", _read("specs_bridge.rs")))
     u.append(raw("specs_lemma_defs", _read("lemma_defs.rs")))
     u.append(raw("specs_guards", _read("specs_guards.rs")))
+    u.append(raw("specs_members", _read("specs_members.rs")))
 
     # ------------------------------------------------------------------ derived Clone (A5)
     u.append(raw("clone_specs", """
@@ -934,7 +937,7 @@ def builder_units():
         # contract only here: verified in module `parse`
         fn("parse_stream", "r", mode="assumed", ensures=PARSE_STREAM_ENSURES),
     ], self_ty="ActionGroup"))
-    u.append(raw("impl_parse_unit", "impl<'a> ParseUnit<ActionGroup> for ActionExprChainBuilder<'a> {\n    #[verifier::external_body]\n    fn parse_unit<T: Parse>(&self, input: ParseStream<'_>, allow_empty_parsed: bool) -> (r: UnitResult<T, ActionGroup>) { unimplemented!() }\n}\nuse crate::Expr::Let;\n"))
+    u.append(raw("impl_parse_unit", "impl<'a> ParseUnit<ActionGroup> for ActionExprChainBuilder<'a> {\n    open spec fn next_wf(&self, n: Option<ActionGroup>) -> bool { opt_group_wf(n) }\n    #[verifier::external_body]\n    fn parse_unit<T: Parse>(&self, input: ParseStream<'_>, allow_empty_parsed: bool) -> (r: UnitResult<T, ActionGroup>) { unimplemented!() }\n}\nuse crate::Expr::Let;\n"))
     u.append(fns(F_UTILS, [fn("is_block_expr", "r", ensures=["r == (expr is Block)"])]))
     u.append(fns(F_BUILDER, [
         fn("build_from_parse_stream", "r",
@@ -942,6 +945,9 @@ def builder_units():
                # C15: a `<<<` only ever closes a `>>>` of the same step, so the generator's stack never underflows
                "r is Ok ==> balanced(groups_of(r->Ok_0.members@), groups_of(r->Ok_0.members@).len() as int)",
                "r is Ok ==> r->Ok_0.members@.len() >= 1",
+               # every member is one the generator can process (carried from each parse_stream call through the loop);
+               # with the balance this is the generator's whole precondition on a branch (lemma_accepted_branch, module `top`)
+               "r is Ok ==> members_ok(r->Ok_0.members@)",
            ],
            proof_prologue="broadcast use lemma_groups_push, lemma_balance_prefix, lemma_balanced_prefix;",
            loops={"0": {"invariant": [
@@ -950,11 +956,16 @@ def builder_units():
                "wrapper_count == step_with(balance(groups_of(chain.members@), chain.members@.len() as int), action_group)",
                "0 <= wrapper_count <= chain.members@.len() + 1",
                "member_idx == 0 ==> action_group.combinator == Combinator::Initial",
+               "member_idx == 0 ==> action_group.application_type == ApplicationType::Instant && action_group.move_type == MoveType::None",
+               "group_wf(action_group)",
+               "forall|i: int| 0 <= i < chain.members@.len() ==> member_ok(#[trigger] chain.members@[i])",
+               "chain.members@.len() > 0 ==> chain.members@[0].action.application_type == ApplicationType::Instant",
            ],
                # A8 (machine arithmetic): the two counters are verified under the stated bound on the number of actions
                "body_prologue": "proof { assume(chain.members@.len() < 0x7fff_0000); }"}},
            subst=[{"find": "chain.is_empty()", "replace": "(chain.len() == 0)", "why": "Chain::is_empty is the trait's default method `self.len() == 0`"},
-                  {"find": "let mut member_idx = 0;", "replace": "let mut member_idx: usize = 0;", "why": "integer type made explicit (only compared with 0 and incremented)"}]),
+                  {"find": "let mut member_idx = 0;", "replace": "let mut member_idx: usize = 0;", "why": "integer type made explicit (only compared with 0 and incremented)"},
+                  {"find": "            chain.append_member(action_expr);", "replace": "            proof { lemma_member_ok(action_group, action_expr); }\n            chain.append_member(action_expr);", "why": "R7 proof annotation (lemma call, no executable change)"}]),
     ], self_ty="ActionExprChainBuilder", trait="ParseChain", header="impl<'a> ActionExprChainBuilder<'a>"))
     return u
 
@@ -970,12 +981,14 @@ def parse_units():
         fn("parse_action_expr", "r", mode="assumed", ensures=[
             "r is Ok ==> r->Ok_0.parsed.action == *self",
             "r is Ok ==> r->Ok_0.parsed.expr.ctor_of() == parse_table(self.combinator).1",
-            "r is Ok && self.combinator == Combinator::Initial ==> r->Ok_0.parsed.expr.operands().len() == 1"]),
+            "r is Ok && self.combinator == Combinator::Initial ==> r->Ok_0.parsed.expr.operands().len() == 1",
+            # ASSUMED with the rest: the `next` of the result is the `next` of the unit parser's result (macro glue)
+            "r is Ok ==> unit_parser.next_wf(r->Ok_0.next)"]),
         # C02: a Wrap action is the placeholder built by to_wrapper_action_expr; everything else goes through the table
         fn("parse_stream", "r", ensures=PARSE_STREAM_ENSURES + [
         ], closures={
             "0": {"params": [], "ret": "(r: SynError)"},
-            "1": {"params": ["ExprGroup<ActionExpr>"], "ret": "(r: UnitResult<ExprGroup<ActionExpr>, ActionGroup>)", "ensures": ["r is Ok ==> r->Ok_0.parsed == val"]},
+            "1": {"params": ["ExprGroup<ActionExpr>"], "ret": "(r: UnitResult<ExprGroup<ActionExpr>, ActionGroup>)", "ensures": ["r is Ok ==> r->Ok_0.parsed == val", "r is Ok ==> unit_parser.next_wf(r->Ok_0.next)"]},
         }, subst=[{"find": "let &Self {\n            combinator,\n            move_type,\n            ..\n        } = self;",
                    "replace": "let combinator = self.combinator; let move_type = self.move_type;",
                    "why": "Verus does not support reference patterns; same bindings (both fields are Copy)"}]),
@@ -1128,7 +1141,7 @@ OBLIGATIONS = {
             ("gen", "JoinOutput::expand_process_expr"), ("gen", "JoinOutput::generate_def_and_step_streams"),
             # an initial value that binds looser than `.method()` is parenthesised (fix 0941b1e)
             ("gen", "is_lower_precedence_than_method_call")],
-    "C02": [("gen", "lemma_split_balance"), ("gen", "lemma_accepted_chain_never_underflows"), ("gen", "JoinOutput::split_branch_steps"), ("gen", "JoinOutput::generate_step_branch"), ("parse", "ActionGroup::parse_stream"), ("parse", "parse_until_suffix"), ("parse", "lemma_wrapper_frame"), ("builder", "ActionExprChainBuilder::build_from_parse_stream"), ("gen", "JoinOutput::wrap_last_step_stream"), ("gen", "JoinOutput::process_step_action_expr"),
+    "C02": [("gen", "lemma_split_balance"), ("gen", "lemma_accepted_chain_never_underflows"), ("gen", "lemma_split_members"), ("gen", "lemma_accepted_branch"), ("builder", "lemma_member_ok"), ("gen", "JoinOutput::split_branch_steps"), ("gen", "JoinOutput::generate_step_branch"), ("parse", "ActionGroup::parse_stream"), ("parse", "parse_until_suffix"), ("parse", "lemma_wrapper_frame"), ("builder", "ActionExprChainBuilder::build_from_parse_stream"), ("gen", "JoinOutput::wrap_last_step_stream"), ("gen", "JoinOutput::process_step_action_expr"),
             ("gen", "lemma_step_toks1"), ("core", "Combinator::can_be_wrapper"), ("core", "ActionGroup::to_wrapper_action_expr"),
             ("core", "ProcessExpr::replace_inner_exprs"), ("core", "ErrExpr::replace_inner_exprs"),
             ("core", "InitialExpr::replace_inner_exprs"), ("core", "ActionExpr::replace_inner_exprs"),
@@ -1155,7 +1168,7 @@ OBLIGATIONS = {
     "C05": [("steps", "JoinOutput::join_steps"), ("steps", "lemma_join_comma"), ("steps", "lemma_count_take_step"), ("gen", "JoinOutput::generate_results_transposer"), ("parse", "parse_until_suffix"), ("parse", "ActionGroup::parse_stream"),
             ("core", "ActionGroup::to_wrapper_action_expr"), ("core", "ActionGroup::new"), ("core", "ExprGroup::application_type")],
     "C12": [("sep", "JoinOutput::separate_block_expr_process"), ("sep", "JoinOutput::separate_block_expr_err"), ("sep", "JoinOutput::separate_block_expr_initial"), ("sep", "lemma_sep_step"), ("steps", "JoinOutput::join_steps"), ("steps", "lemma_join_comma"), ("steps", "lemma_count_take_step"), ("builder", "ActionExprChainBuilder::build_from_parse_stream"), ("gen", "JoinOutput::branch_result_name"), ("gen", "JoinOutput::branch_result_pat")],
-    "C15": [("top", "JoinOutput::new"), ("top", "JoinOutput::new_fields"), ("top", "lemma_new_fields"), ("steps", "JoinOutput::generate_steps"), ("gen", "lemma_split_balance"), ("gen", "lemma_accepted_chain_never_underflows"), ("gen", "JoinOutput::split_branch_steps"), ("gen", "JoinOutput::generate_step_branch"), ("parse", "parse_until_suffix"), ("builder", "ActionExprChainBuilder::build_from_parse_stream"), ("builder", "ActionExprChain::append_member"),
+    "C15": [("top", "JoinOutput::new"), ("top", "JoinOutput::new_fields"), ("top", "lemma_new_fields"), ("steps", "JoinOutput::generate_steps"), ("gen", "lemma_split_balance"), ("gen", "lemma_accepted_chain_never_underflows"), ("gen", "lemma_split_members"), ("gen", "lemma_accepted_branch"), ("builder", "lemma_member_ok"), ("builder", "lemma_unwrap_only_from_unwrap"), ("gen", "JoinOutput::split_branch_steps"), ("gen", "JoinOutput::generate_step_branch"), ("parse", "parse_until_suffix"), ("builder", "ActionExprChainBuilder::build_from_parse_stream"), ("builder", "ActionExprChain::append_member"),
             ("builder", "lemma_append_facts"), ("builder", "lemma_balanced_depth"),
             ("gen", "JoinOutput::wrap_last_step_stream"), ("gen", "JoinOutput::process_step_action_expr"),
             ("gen", "JoinOutput::generate_def_and_step_streams"), ("gen", "JoinOutput::expand_process_expr"),
